@@ -534,6 +534,25 @@ func (z *ScriptedPeer) serveBlocks(r *gateway.RPCSendV2Blocks, s *gateway.Stream
 	case "zero":
 		r.Blocks, r.Remaining = nil, rem+uint64(len(bs))
 		s.WriteResponse(r)
+	case "twin-address", "twin-txns":
+		// an ID TWIN: the honest header (same block id -- a v2 id covers only the header) with
+		// another body.  Header-valid (ValidateOrphan passes: work, height, payout sum), so AddBlocks
+		// stores it; the commitment mismatch only shows when a reorg applies the block.
+		if len(bs) > 0 && bs[pos].V2 != nil {
+			b := bs[pos]
+			if rule.Kind == "twin-address" {
+				b.MinerPayouts = []types.SiacoinOutput{{Address: types.Address{0x7e, 0x57}, Value: b.MinerPayouts[0].Value}}
+			} else {
+				v2 := *b.V2
+				v2.Transactions = []types.V2Transaction{{ArbitraryData: []byte("body swapped by the peer")}}
+				b.V2 = &v2
+			}
+			bs[pos] = b
+		} else {
+			kind = ""
+		}
+		r.Blocks, r.Remaining = bs, rem
+		s.WriteResponse(r)
 	case "payout":
 		// same id (a v2 id does not cover the payout value), wrong miner payout: rejected at submission
 		if len(bs) > 0 && bs[pos].V2 != nil {
